@@ -347,6 +347,26 @@ pub fn write_replay<T: Serialize>(ctx: &Ctx, case: &T, message: &str) -> PathBuf
     p
 }
 
+/// committed replay files of one property (replays/<ID>-*.json), sorted
+pub fn saved_replays(id: &str) -> Vec<PathBuf> {
+    let dir = Path::new(VERIF_ROOT).join("replays");
+    let mut v: Vec<PathBuf> = match std::fs::read_dir(&dir) {
+        Ok(rd) => rd
+            .filter_map(|e| e.ok())
+            .map(|e| e.path())
+            .filter(|p| {
+                p.file_name()
+                    .and_then(|n| n.to_str())
+                    .map(|n| n.starts_with(&format!("{}-", id)) && n.ends_with(".json") && !n.contains("-hang-"))
+                    .unwrap_or(false)
+            })
+            .collect(),
+        Err(_) => vec![],
+    };
+    v.sort();
+    v
+}
+
 pub fn read_replay<T: DeserializeOwned>(path: &Path) -> anyhow::Result<T> {
     let data = std::fs::read(path)?;
     let v: Value = serde_json::from_slice(&data)?;
